@@ -181,6 +181,7 @@ def run(chk: Check) -> None:
     # Edge endpoints by deep_eq, labels by != in CFG.deep_eq
     f = repo.cls("CFG").methods.get("deep_eq")
     if f is not None:
+        _edge_key_total(chk, f)
         txt = unparse(f.node)
         ok = ".source.deep_eq(" in txt and ".target.deep_eq(" in txt and ".label" in txt
         chk.ob("R18.1", "CFG.deep_eq:edges-compared", ok, f.loc(),
@@ -337,3 +338,36 @@ def _optional(chk: Check, f: FuncInfo) -> None:
                         other_tested = True
             chk.ob("R18.4", "%s:%s-none-symmetric" % (f.qualname, x), other_tested, f.loc(n),
                    "when self.%s is None, %s must report inequality if other.%s is not None" % (x, f.qualname, x), 2)
+
+
+def _edge_key_total(chk: Check, f: FuncInfo) -> None:
+    """the key the two edge lists are sorted by must separate everything the pairwise
+    comparison distinguishes: both endpoint UUIDs and every field of the label"""
+    repo = chk.repo
+    fields = list(repo.cls("EdgeLabel").class_annots)
+    keyfn = None
+    for n in walk_no_nested(f.node):
+        if isinstance(n, ast.Call) and attr_path(n.func) == ("sorted",):
+            for k in n.keywords:
+                if k.arg == "key":
+                    keyfn = k.value
+    body = None
+    if isinstance(keyfn, ast.Name):
+        g = f.nested().get(keyfn.id)
+        body = g.node if g is not None else None
+    elif isinstance(keyfn, ast.Lambda):
+        body = keyfn
+    if body is None:
+        chk.ob("R18.3", "CFG.deep_eq:sort-key-total", False, f.loc(),
+               "CFG.deep_eq does not sort the two edge lists by a key function", 1)
+        return
+    attrs = {x.attr for x in ast.walk(body) if isinstance(x, ast.Attribute)}
+    paths = {".".join(attr_path(x)[1:]) for x in ast.walk(body) if isinstance(x, ast.Attribute) and attr_path(x)}
+    need_ends = any(p.endswith("source.uuid") for p in paths) and any(p.endswith("target.uuid") for p in paths)
+    missing = [fl for fl in fields if fl not in attrs]
+    chk.ob("R18.3", "CFG.deep_eq:sort-key-total", need_ends and not missing, f.loc(),
+           "the edge sort key must order by source UUID, target UUID and every label field (%s); it "
+           "omits %s: parallel edges that differ only there can be paired in different orders on the "
+           "two sides, so equal graphs compare unequal"
+           % (", ".join(fields), ", ".join(missing) or ("an endpoint UUID" if not need_ends else "nothing")),
+           len(fields) + 2)
